@@ -207,7 +207,7 @@ func groupBounds(s *sink, g *hx.Gen) {
 		}
 		vals = append(vals, hx.Uint("uint64", math.MaxUint64), hx.Uint("uint64", 1<<32), hx.Bool(true), hx.Bool(false), hx.F64(1), hx.F64(0), hx.Nil())
 	case "pattern":
-		for _, w := range []string{"^a+$", "a(b", "", "[", "x|y", "\\d+", "(?P<n>a)", "a{2,1}"} {
+		for _, w := range []string{"^a+$", "a(b", "", "[", "x|y", "\\d+", "(?P<n>a)", "a{2,1}", "a\n", "\n", "\r\n", "^a$\r\n", "a\\\n", "a\\\r", " a ", "\ta\t", "a\n\n"} {
 			vals = append(vals, hx.Str(w))
 		}
 		vals = append(vals, hx.Int("int64", 5), hx.F64(1.5), hx.Bool(true), hx.Nil())
@@ -767,6 +767,13 @@ func groupDupKeys(s *sink, g *hx.Gen) {
 	if strKeyed {
 		m = hx.StrAny(pairs...)
 	}
+	// a minimal size equal to the number of raw entries: if two raw keys were merged instead of
+	// rejected, the result would be shorter than its own schema allows (C01: Validate / Serialize of
+	// the value Unserialize returned)
+	if t.T == "map" && g.R.Intn(2) == 0 {
+		min := strconv.Itoa(len(pairs) - g.R.Intn(2))
+		t.Min = &min
+	}
 	// wrap it at a random position so that nested maps are covered too
 	switch g.R.Intn(3) {
 	case 1:
@@ -776,6 +783,7 @@ func groupDupKeys(s *sink, g *hx.Gen) {
 		t = &hx.Ty{T: "obj", ID: "W", Props: []hx.NamedProp{{Name: "m", P: &hx.Prop{Ty: t}}, {Name: "x", P: &hx.Prop{Ty: &hx.Ty{T: "bool"}}}}}
 		m = hx.StrAny([2]*hx.Val{hx.Str("m"), m})
 	}
+	chain(s, t, m, "dupkeys:chain")
 	res, id, _ := s.emit("U", t, m, nil, false, "class", "dupkeys")
 	for i := 0; i < 12; i++ {
 		again := hx.Guard(func() hx.Result { rr, _ := hx.RunOpRaw("U", t.Build(), m.ToGo()); return rr })
@@ -979,6 +987,56 @@ func groupRules(s *sink, g *hx.Gen) {
 			}
 		}
 	}
+	// the same native value validated repeatedly: a rejection must name the offending element every
+	// time (an operation that edits the value it is given - and puts it back only on success - would
+	// report the first rejection correctly and every later one somewhere else)
+	{
+		five := "5"
+		member := func(id string) *hx.Ty {
+			return &hx.Ty{T: "obj", ID: id, Props: []hx.NamedProp{{Name: "timeout", P: &hx.Prop{Ty: &hx.Ty{T: "int", Min: &five}}}, {Name: "name", P: &hx.Prop{Ty: &hx.Ty{T: "str"}}}}}
+		}
+		for _, inl := range []bool{false, true} {
+			oo := &hx.Ty{T: "oneOf", Disc: "kind", Inlined: inl, Members: []hx.Member{{Key: "job", Ty: member("Job")}, {Key: "task", Ty: member("Task")}}}
+			if inl {
+				for i := range oo.Members {
+					oo.Members[i].Ty.Props = append(oo.Members[i].Ty.Props, hx.NamedProp{Name: "kind", P: &hx.Prop{Ty: &hx.Ty{T: "str"}}})
+				}
+			}
+			nv := hx.StrAny([2]*hx.Val{hx.Str("kind"), hx.Str("job")}, [2]*hx.Val{hx.Str("timeout"), hx.Int("int64", 1)}, [2]*hx.Val{hx.Str("name"), hx.Str("n")})
+			pt, pv := oo, nv
+			var path []string
+			for _, w := range wraps {
+				pt = w.ty(pt)
+				pv = w.val(pv)
+				path = append([]string{w.seg}, path...)
+			}
+			want := append(append([]string{}, path...), "timeout")
+			s.emit("V", pt, pv, nil, false, "path", "rules:repeat")
+			sch := pt.Build()
+			native := pv.ToGo()
+			before := hx.Canon(hx.Enc(native))
+			for i, op := range []string{"V", "V", "S", "V", "C", "V"} {
+				r := hx.Guard(func() hx.Result { rr, _ := hx.RunOpRaw(op, sch, native); return rr })
+				s.stats["rules:repeat"]++
+				if op == "C" {
+					continue
+				}
+				if r.R == "ok" || r.R == "panic" {
+					s.finding(Finding{Prop: "C03", What: "a value with an element below its minimum is not rejected (call " + strconv.Itoa(i+1) + " on the same value, " + op + "): " + r.R + " " + r.Msg, Schema: pt, Input: pv})
+					break
+				}
+				if r.C == nil || !*r.C || !samePath(stripMarkers(r.Path), want) {
+					s.finding(Finding{Prop: "C17", What: "rejection does not name the offending element when the same value is checked again (call " + strconv.Itoa(i+1) + ", " + op + ")",
+						Schema: pt, Input: pv, Detail: []string{"expected path " + pathText(want), "got " + r.JSON()}})
+					break
+				}
+			}
+			if after := hx.Canon(hx.Enc(native)); after != before {
+				s.finding(Finding{Prop: "C12", What: "Validate / Serialize modified the value they were given", Schema: pt, Input: pv, Detail: []string{before, after}})
+			}
+		}
+	}
+
 }
 
 // groupErrorValues: errors are values. A rejection returned by one call must not change when later
